@@ -98,9 +98,11 @@ func (E *Engine) VerifyFunc(name string) (rep FuncReport) {
 		}
 		rep.NObls = len(E.Obls) - start
 	}()
-	if c.Trusted {
+	if c.Trusted && len(c.Sweep) == 0 {
 		return
 	}
+	// a trusted contract with a sweep: the body is executed for its safe:* (panic-freedom) obligations only; the functional
+	// postconditions stay assumed
 	E.npaths = 0
 	E.SumsOn = c.Sums
 	defer func() { E.SumsOn = false }()
@@ -175,7 +177,7 @@ func (E *Engine) VerifyFunc(name string) (rep FuncReport) {
 			}
 		}
 		for _, en := range c.Ensures {
-			if en.Assumed {
+			if en.Assumed || c.Trusted {
 				continue
 			}
 			g := pev.EvalBool(en.Expr, en.Src)
@@ -416,6 +418,57 @@ func (E *Engine) buildQuery(r Reading, hyps []*Term, goal *Term) string {
 	}
 	b.WriteString("(assert (not ")
 	b.WriteString(goal.S)
+	b.WriteString("))\n(check-sat)\n")
+	return b.String()
+}
+
+// buildBatchQuery decides several path instances of one obligation at once: hypotheses shared by all instances are asserted at top level,
+// the rest goes into one disjunct per instance together with the negated goal. unsat <=> every instance is valid.
+func (E *Engine) buildBatchQuery(r Reading, obls []*Obligation) string {
+	count := map[string]int{}
+	for _, o := range obls {
+		seen := map[string]bool{}
+		for _, h := range o.Hyps {
+			if !seen[h.S] {
+				seen[h.S] = true
+				count[h.S]++
+			}
+		}
+	}
+	var b, tb strings.Builder
+	b.WriteString(Prelude(r))
+	for _, o := range obls {
+		for _, h := range o.Hyps {
+			tb.WriteString(h.S)
+			tb.WriteByte(' ')
+		}
+		tb.WriteString(o.Goal.S)
+		tb.WriteByte(' ')
+	}
+	if os.Getenv("GVC_ALLAXIOMS") != "" {
+		b.WriteString(E.D.Dump())
+	} else {
+		b.WriteString(E.D.DumpFor(tb.String()))
+	}
+	done := map[string]bool{}
+	for _, o := range obls {
+		for _, h := range o.Hyps {
+			if count[h.S] == len(obls) && !done[h.S] {
+				done[h.S] = true
+				b.WriteString("(assert " + h.S + ")\n")
+			}
+		}
+	}
+	b.WriteString("(assert (or")
+	for _, o := range obls {
+		b.WriteString("\n (and true")
+		for _, h := range o.Hyps {
+			if count[h.S] != len(obls) {
+				b.WriteString(" " + h.S)
+			}
+		}
+		b.WriteString(" (not " + o.Goal.S + "))")
+	}
 	b.WriteString("))\n(check-sat)\n")
 	return b.String()
 }
